@@ -750,6 +750,67 @@ func main() {
 	sum.Extra["lints_exhaustive"] = nExhaustive
 	sum.Extra["lints_seeded_deep"] = len(cases) - nExhaustive
 
+	// 2'. a placeholder AFTER a placeholder of the same value that already drew a diagnostic: its
+	// verdict must not depend on the earlier one.  (The pinned tree stops scanning a value at the first
+	// placeholder with a diagnostic: recorded finding, class key `later-placeholder-not-checked`.)
+	for _, pi := range routed {
+		p := positions[pi]
+		if p.Form != 0 || !acceptsText(pi) {
+			continue
+		}
+		key := sp.keyFor(p.Canon)
+		bad := ""
+		for _, c := range sp.contexts {
+			if !sp.ctxAllowed(key, c) {
+				bad = c
+				break
+			}
+		}
+		if bad == "" {
+			continue
+		}
+		for _, name := range []string{"secrets", "env", "runner", "matrix"} {
+			if name == bad {
+				continue
+			}
+			value := "${{ " + bad + " }}-${{ " + name + " }}"
+			r := render(p.Variant, p.ID, value)
+			errs, err := lint(r.Text)
+			if err != nil || !r.Planted {
+				continue
+			}
+			sum.Evaluations++
+			sum.Dist["embedding:after-a-diagnosed-placeholder"]++
+			col := r.Col + len("${{ "+bad+" }}-${{ ")
+			reported, first := false, false
+			for _, e := range errs {
+				d, ok := classify(e)
+				if !ok || e.Line != r.Line {
+					continue
+				}
+				if strings.EqualFold(d.Name, name) && d.Col == col {
+					reported = true
+				}
+				if strings.EqualFold(d.Name, bad) {
+					first = true
+				}
+			}
+			demanded := !sp.ctxAllowed(key, name)
+			c := lintCase{PosIdx: pi, PosID: p.ID, Canon: p.Canon, Name: name, Expr: value, Workflow: r.Text, Line: r.Line, ColBase: col}
+			switch {
+			case !first:
+				sum.OracleFails = append(sum.OracleFails, failure{Kind: "verdict", Key: "verdict:" + p.ID + ":" + bad, Case: c, SpecKey: key, Demanded: true,
+					What: fmt.Sprintf("context %q at %s is NOT reported although GitHub's table does not list it for key %q", bad, p.ID, key)})
+			case demanded && !reported:
+				sum.OracleFails = append(sum.OracleFails, failure{Kind: "verdict", Key: "later-placeholder-not-checked:context", Case: c, SpecKey: key, Demanded: true,
+					What: fmt.Sprintf("context %q in a placeholder after `${{ %s }}` (which is reported) at %s is NOT reported although GitHub's table does not list it for key %q", name, bad, p.ID, key)})
+			case !demanded && reported:
+				sum.OracleFails = append(sum.OracleFails, failure{Kind: "verdict", Key: "verdict:" + p.ID + ":" + name, Case: c, SpecKey: key, Observed: true,
+					What: fmt.Sprintf("context %q in a later placeholder at %s is reported although GitHub's table lists it for key %q", name, p.ID, key)})
+			}
+		}
+	}
+
 	// 3. the exported table function itself
 	tableOracle(sp, sum)
 	sum.Write(filepath.Join(*out, "summary.json"))
